@@ -294,4 +294,262 @@ theorem firstFit_row0 (S : List Sample) (hS : SSorted S) (cs : List RChunk)
   rw [headRow_overlapSplit]
   exact ff_main S hS cs hcut hsorted hsucc hne cs [] [] [] S rfl rfl rfl (Or.inl ⟨rfl, rfl, rfl⟩)
 
+/-! ### the other rows hold sub-sequences of `S` -/
+
+/-- the start of a cut is at most its end -/
+theorem mint_le_maxt {c : RChunk} {S : List Sample} (hS : SSorted S) (hne : c.samples ≠ [])
+    (hinf : c.samples <:+: S) : c.mint ≤ c.maxt := by
+  obtain ⟨x, r, hx⟩ : ∃ x r, c.samples = x :: r := by
+    cases hcs : c.samples with
+    | nil => exact absurd hcs hne
+    | cons x r => exact ⟨x, r, rfl⟩
+  obtain ⟨h1, h2⟩ := mint_of_cons hx
+  have hs : SSorted (x :: r) := by rw [← hx]; exact List.Pairwise.sublist hinf.sublist hS
+  have := le_lastOf hs x (by simp)
+  omega
+
+/-- the samples of a cut lie between its start and its end -/
+theorem mem_chunk_bounds {c : RChunk} {S : List Sample} (hS : SSorted S) (hinf : c.samples <:+: S)
+    {a : Sample} (ha : a ∈ c.samples) : c.mint ≤ a.t ∧ a.t ≤ c.maxt := by
+  obtain ⟨x, r, hx⟩ : ∃ x r, c.samples = x :: r := by
+    cases hcs : c.samples with
+    | nil => rw [hcs] at ha; simp at ha
+    | cons x r => exact ⟨x, r, rfl⟩
+  obtain ⟨h1, h2⟩ := mint_of_cons hx
+  have hs : SSorted (x :: r) := by rw [← hx]; exact List.Pairwise.sublist hinf.sublist hS
+  rw [hx] at ha
+  have hl : (x :: r).getLast? = some (r.getLast?.getD x) := getLast?_cons_getD r x
+  have := ssorted_bounds hs rfl hl a ha
+  unfold lastOf at h2
+  omega
+
+theorem rowOK_all_gt {S : List Sample} (hS : SSorted S) : ∀ (row : List RChunk) (c : RChunk),
+    RowOK (c :: row) → (∀ e ∈ row, e.samples ≠ [] ∧ e.samples <:+: S) → ∀ e ∈ row, c.maxt < e.mint := by
+  intro row
+  induction row with
+  | nil => intro c _ _ e he; simp at he
+  | cons d row ih =>
+    intro c hok hcut e he
+    obtain ⟨h1, h2⟩ := hok
+    rcases List.mem_cons.mp he with rfl | he
+    · exact h1
+    · have := ih d h2 (fun e' he' => hcut e' (by simp [he'])) e he
+      have hd := mint_le_maxt hS (hcut d (by simp)).1 (hcut d (by simp)).2
+      omega
+
+/-- a row of time-ordered, non-overlapping cuts of `S` concatenates to a sub-sequence of `S` -/
+theorem row_sublist : ∀ (row : List RChunk) (S : List Sample), SSorted S → RowOK row →
+    (∀ c ∈ row, c.samples ≠ [] ∧ c.samples <:+: S) → (row.flatMap (·.samples)).Sublist S := by
+  intro row
+  induction row with
+  | nil => intro S _ _ _; simp
+  | cons c row ih =>
+    intro S hS hok hcut
+    obtain ⟨hcne, hcinf⟩ := hcut c (by simp)
+    obtain ⟨s, t, hst⟩ := hcinf
+    have hSs : SSorted (s ++ c.samples ++ t) := by rw [hst]; exact hS
+    have hts : SSorted t := List.Pairwise.sublist (List.sublist_append_right _ t) hSs
+    -- every later chunk is a cut of t
+    have hlater : ∀ e ∈ row, e.samples ≠ [] ∧ e.samples <:+: t := by
+      intro e he
+      obtain ⟨hene, heinf⟩ := hcut e (by simp [he])
+      refine ⟨hene, ?_⟩
+      obtain ⟨x, r, hx⟩ : ∃ x r, e.samples = x :: r := by
+        cases hes : e.samples with
+        | nil => exact absurd hes hene
+        | cons x r => exact ⟨x, r, rfl⟩
+      have hgt := rowOK_all_gt hS row c hok (fun e' he' => hcut e' (by simp [he'])) e he
+      have hem := (mint_of_cons hx).1
+      apply infix_right (P := s ++ c.samples) hx (by rw [hst]; exact heinf)
+      intro a ha
+      rcases List.mem_append.mp ha with ha | ha
+      · -- a ∈ s is before everything in c, hence before c.maxt
+        obtain ⟨y, r', hy⟩ : ∃ y r', c.samples = y :: r' := by
+          cases hcs : c.samples with
+          | nil => exact absurd hcs hcne
+          | cons y r' => exact ⟨y, r', rfl⟩
+        have h1 : a.t < y.t := ssorted_append_lt (List.Pairwise.sublist (List.sublist_append_left _ t) hSs)
+          a ha y (by rw [hy]; simp)
+        have h2 := (mem_chunk_bounds hS ⟨s, t, hst⟩ (a := y) (by rw [hy]; simp)).2
+        omega
+      · have := (mem_chunk_bounds hS ⟨s, t, hst⟩ ha).2
+        omega
+    have hrow : RowOK row := by
+      cases row with
+      | nil => trivial
+      | cons d r => exact hok.2
+    have := ih t hts hrow hlater
+    rw [List.flatMap_cons, ← hst]
+    exact ((List.sublist_append_right s c.samples).append this)
+
+/-- consecutive chunks of a `RowOK` row of cuts do not overlap as sample lists -/
+theorem rowDisjoint_of_rowOK {S : List Sample} (hS : SSorted S) : ∀ (row : List RChunk), RowOK row →
+    (∀ c ∈ row, c.samples ≠ [] ∧ c.samples <:+: S) → RowDisjoint (row.map (·.samples)) := by
+  intro row
+  induction row with
+  | nil => intro _ _; trivial
+  | cons c row ih =>
+    intro hok hcut
+    cases row with
+    | nil => trivial
+    | cons d r =>
+      refine ⟨?_, ih hok.2 (fun e he => hcut e (by simp [he]))⟩
+      intro x hx y hy
+      have h1 := (mem_chunk_bounds hS (hcut c (by simp)).2 hx).2
+      have h2 := (mem_chunk_bounds hS (hcut d (by simp)).2 hy).1
+      have := hok.1
+      omega
+
+/-- folding the penalty merge over sub-sequences of `S` leaves `S` -/
+theorem foldl_pm2_sublist {S : List Sample} (hS : SSorted S) (hl : ∀ x ∈ S, minT < x.t) :
+    ∀ (others : List (List Sample)), (∀ q ∈ others, q.Sublist S) → others.foldl (pm2 minT) S = S := by
+  intro others
+  induction others with
+  | nil => intro _; rfl
+  | cons q others ih =>
+    intro h
+    simp only [List.foldl_cons]
+    rw [pm2_sublist hS (h q (by simp)) (fun x hx => by have := hl x (List.mem_of_mem_head? hx); omega)]
+    exact ih (fun q' hq' => h q' (by simp [hq']))
+
+/-! ### the proxy's specification: sort and drop identical chunks -/
+
+theorem mem_insertSorted {c x : RChunk} : ∀ {l : List RChunk}, x ∈ insertSorted c l ↔ x = c ∨ x ∈ l
+  | [] => by simp [insertSorted]
+  | d :: ds => by
+    unfold insertSorted
+    split
+    · simp
+    · simp only [List.mem_cons, mem_insertSorted (l := ds)]
+      constructor
+      · rintro (h | h | h)
+        · exact Or.inr (Or.inl h)
+        · exact Or.inl h
+        · exact Or.inr (Or.inr h)
+      · rintro (h | h | h)
+        · exact Or.inr (Or.inl h)
+        · exact Or.inl h
+        · exact Or.inr (Or.inr h)
+
+theorem mem_sortChunks {x : RChunk} : ∀ {l : List RChunk}, x ∈ sortChunks l ↔ x ∈ l
+  | [] => by simp [sortChunks]
+  | c :: l => by
+    have ih := mem_sortChunks (x := x) (l := l)
+    simp only [sortChunks, List.foldr_cons] at ih ⊢
+    rw [mem_insertSorted, ih]
+    simp
+
+theorem chunkLe_mint {a b : RChunk} (h : chunkLe a b = true) : a.mint ≤ b.mint := by
+  unfold chunkLe at h
+  split at h
+  · simp at h; omega
+  · rename_i hm; simp at hm; omega
+
+theorem not_chunkLe_mint {a b : RChunk} (h : ¬ chunkLe a b = true) : b.mint ≤ a.mint := by
+  unfold chunkLe at h
+  split at h
+  · simp at h; omega
+  · rename_i hm; simp at hm; omega
+
+theorem insertSorted_sorted {c : RChunk} : ∀ {l : List RChunk}, l.Pairwise (fun a b => a.mint ≤ b.mint) →
+    (insertSorted c l).Pairwise (fun a b => a.mint ≤ b.mint)
+  | [], _ => by simp [insertSorted]
+  | d :: ds, h => by
+    have hp := List.pairwise_cons.mp h
+    unfold insertSorted
+    split
+    · rename_i hle
+      have hcd := chunkLe_mint hle
+      refine List.pairwise_cons.mpr ⟨?_, h⟩
+      intro x hx
+      rcases List.mem_cons.mp hx with rfl | hx
+      · exact hcd
+      · have := hp.1 x hx; omega
+    · rename_i hle
+      have hdc := not_chunkLe_mint hle
+      refine List.pairwise_cons.mpr ⟨?_, insertSorted_sorted hp.2⟩
+      intro x hx
+      rcases mem_insertSorted.mp hx with rfl | hx
+      · exact hdc
+      · exact hp.1 x hx
+
+theorem sortChunks_sorted : ∀ (l : List RChunk), (sortChunks l).Pairwise (fun a b => a.mint ≤ b.mint)
+  | [] => by simp [sortChunks]
+  | c :: l => by
+    have ih := sortChunks_sorted l
+    simp only [sortChunks, List.foldr_cons] at ih ⊢
+    exact insertSorted_sorted ih
+
+def dedupStep (acc : List RChunk) (c : RChunk) : List RChunk :=
+  if acc.any (fun d => d.samples == c.samples) then acc else acc ++ [c]
+
+theorem dedupContent_eq (l : List RChunk) : dedupContent l = l.foldl dedupStep [] := rfl
+
+theorem dedup_fold_spec : ∀ (l acc : List RChunk),
+    (∀ x ∈ l.foldl dedupStep acc, x ∈ acc ∨ x ∈ l) ∧
+    (∀ c, (c ∈ acc ∨ c ∈ l) → ∃ c' ∈ l.foldl dedupStep acc, c'.samples = c.samples) := by
+  intro l
+  induction l with
+  | nil => intro acc; exact ⟨fun x hx => Or.inl hx, fun c hc => by
+      rcases hc with hc | hc
+      · exact ⟨c, hc, rfl⟩
+      · simp at hc⟩
+  | cons d l ih =>
+    intro acc
+    obtain ⟨i1, i2⟩ := ih (dedupStep acc d)
+    simp only [List.foldl_cons]
+    constructor
+    · intro x hx
+      rcases i1 x hx with h | h
+      · unfold dedupStep at h
+        split at h
+        · exact Or.inl h
+        · rcases List.mem_append.mp h with h | h
+          · exact Or.inl h
+          · simp at h; subst h; exact Or.inr (by simp)
+      · exact Or.inr (by simp [h])
+    · intro c hc
+      -- c is in acc, or is d, or is in l
+      have hstep : ∀ c0 ∈ acc, c0 ∈ dedupStep acc d := by
+        intro c0 h0
+        unfold dedupStep
+        split
+        · exact h0
+        · exact List.mem_append_left _ h0
+      rcases hc with hc | hc
+      · exact i2 c (Or.inl (hstep c hc))
+      · rcases List.mem_cons.mp hc with rfl | hc
+        · -- c = d: either already represented in acc, or appended
+          by_cases hany : acc.any (fun e => e.samples == c.samples) = true
+          · obtain ⟨e, he, hes⟩ := List.any_eq_true.mp hany
+            obtain ⟨c', hc', hcs'⟩ := i2 e (Or.inl (hstep e he))
+            exact ⟨c', hc', by rw [hcs']; simpa using hes⟩
+          · apply i2 c (Or.inl ?_)
+            unfold dedupStep
+            simp only [hany, Bool.false_eq_true, if_false]
+            simp
+        · exact i2 c (Or.inr hc)
+
+theorem mem_dedupContent_sub {l : List RChunk} {x : RChunk} (h : x ∈ dedupContent l) : x ∈ l := by
+  rcases (dedup_fold_spec l []).1 x h with h | h
+  · simp at h
+  · exact h
+
+theorem dedupContent_complete {l : List RChunk} {c : RChunk} (h : c ∈ l) :
+    ∃ c' ∈ dedupContent l, c'.samples = c.samples :=
+  (dedup_fold_spec l []).2 c (Or.inr h)
+
+/-- a cut of a time-sorted sequence contains every sample of the sequence between two of its own -/
+theorem infix_contig {S d : List Sample} (hS : SSorted S) (hinf : d <:+: S) {z y w : Sample}
+    (hz : z ∈ d) (hy : y ∈ d) (hw : w ∈ S) (h1 : z.t ≤ w.t) (h2 : w.t ≤ y.t) : w ∈ d := by
+  obtain ⟨s, t, hst⟩ := hinf
+  rw [← hst] at hw hS
+  rcases List.mem_append.mp hw with hw | hw
+  · rcases List.mem_append.mp hw with hw | hw
+    · have := ssorted_append_lt (List.Pairwise.sublist (List.sublist_append_left _ t) hS) w hw z hz
+      omega
+    · exact hw
+  · have := ssorted_append_lt hS y (List.mem_append_right s hy) w hw
+    omega
+
 end Thanos.Dedup
